@@ -141,30 +141,41 @@ def _affine(fn, b):
     """does interpolate store  from_i + (to_i - from_i) * t  (or the symmetric forms) for every written element?"""
     sp = [i for i in range(1, b.arg_count + 1) if b.local_ty(i).lstrip('&').lstrip("'_ ").startswith(('base::states', 'Self::StateType', 'Self'))]
     tpar = [i for i in range(1, b.arg_count + 1) if b.local_ty(i) == 'f64']
-    hits, bad = 0, []
+    hits = 0
+    cands = []
     for bi, blk in enumerate(b.blocks):
         if blk['cleanup']:
             continue
         for si, st in enumerate(blk['stmts']):
-            if st['k'] != 'assign' or st['rv']['k'] != 'binop' or st['rv']['op'] != 'Add':
+            if st['k'] == 'assign' and st['rv']['k'] == 'binop' and st['rv']['op'] == 'Add':
+                cands.append(fn.rvalue_terms(st['rv'], (bi, si)))
+        t = blk['term']
+        if t['k'] == 'call' and t['func'].get('path') == 'std::ops::Add::add':
+            cands.append(fn.call_terms(t, bi))          # `a + b` on references to floats (normalised to a binop by the engine)
+
+    def side(ts):
+        """which state parameter an operand is an element of: directly (values[i]) or as a component of a zip element"""
+        base = P.zip_elem_base(ts)
+        src = base if base is not None else ts
+        return {q[1] for q in walk(src) if q[0] == 'param'}
+    for ts in cands:
+        for n in ts:
+            if n[0] != 'binop' or n[1] != 'Add':
                 continue
-            ts = fn.rvalue_terms(st['rv'], (bi, si))
-            for n in ts:
-                for (x, y) in ((n[2], n[3]), (n[3], n[2])):
-                    if len(y) != 1:
+            for (x, y) in ((n[2], n[3]), (n[3], n[2])):
+                if len(y) != 1:
+                    continue
+                m = next(iter(y))
+                if m[0] != 'binop' or m[1] != 'Mul':
+                    continue
+                for (d, tt) in ((m[2], m[3]), (m[3], m[2])):
+                    if not (tt and all(q[0] == 'param' and q[1] in tpar for q in tt)) or len(d) != 1:
                         continue
-                    m = next(iter(y))
-                    if m[0] != 'binop' or m[1] != 'Mul':
-                        continue
-                    for (d, tt) in ((m[2], m[3]), (m[3], m[2])):
-                        if not (tt and all(q[0] == 'param' and q[1] in tpar for q in tt)) or len(d) != 1:
-                            continue
-                        dn = next(iter(d))
-                        if dn[0] == 'binop' and dn[1] == 'Sub' and strip_clone(dn[3]) == strip_clone(x):
-                            pa = {q[1] for q in walk(x) if q[0] == 'param'}
-                            pb_ = {q[1] for q in walk(dn[2]) if q[0] == 'param'}
-                            if pa and pb_ and pa != pb_:
-                                hits += 1
+                    dn = next(iter(d))
+                    if dn[0] == 'binop' and dn[1] == 'Sub' and strip_clone(dn[3]) == strip_clone(x):
+                        pa, pb_ = side(x), side(dn[2])
+                        if pa and pb_ and pa != pb_:
+                            hits += 1
     return hits
 
 
